@@ -1,13 +1,13 @@
 SPECIFICATION Spec
 CONSTANTS
-  NV = 2
-  MaxLen = 2
-  MaxItems = 2
-  Alphabet = {0, 1, 2, 4, 255}
-  MaxRaw = 4
+  NV = 3
+  MaxLen = 3
+  MaxItems = 3
+  Alphabet = {0, 1, 2, 3, 4, 8, 255}
+  MaxRaw = 5
   TypeIds <- AllIds
   RawIds <- RawAll
-  FillSet = {0, 255}
-  LSteps = 2
+  FillSet = {0, 90, 255}
+  LSteps = 3
 INVARIANTS All
 CHECK_DEADLOCK FALSE
